@@ -1,6 +1,8 @@
 package s3api
 
 import (
+	"bytes"
+	"context"
 	"io"
 	"strconv"
 
@@ -10,6 +12,7 @@ import (
 	"github.com/versity/versitygw/internal/zzvf"
 	"github.com/versity/versitygw/internal/zzvfbe"
 	"github.com/versity/versitygw/s3api/controllers"
+	"github.com/versity/versitygw/s3response"
 )
 
 // VfGetRangeE2E: C13 end to end – the real GetObject route handler over the real posix backend on the file-system model.
@@ -21,6 +24,14 @@ func VfGetRangeE2E() {
 	maxLen := 3 + zzvf.Tier()
 	zzvf.Bound("object_len_max", maxLen)
 	be, data := posix.VfWorldWithObject(maxLen)
+	// the object read is the file object "k" or an explicit directory object "d/" (always empty)
+	dirObject := zzvf.Choice("directory_object", 2) == 1
+	if dirObject {
+		dk, zero := "d/", int64(0)
+		_, perr := be.PutObject(context.Background(), s3response.PutObjectInput{Bucket: &[]string{"bkt"}[0], Key: &dk, Body: bytes.NewReader(nil), ContentLength: &zero})
+		zzvf.Assert(perr == nil, "setup-directory-object")
+		data = nil
+	}
 	size := len(data)
 	c := controllers.New(be, nil, nil, nil, nil, false, false)
 	ctx := zzvfbe.NewRequest()
@@ -36,6 +47,10 @@ func VfGetRangeE2E() {
 	r.Params["key"] = "k"
 	r.Params["*1"] = ""
 	r.Path = "/bkt/k"
+	if dirObject {
+		r.Params["key"] = "d"
+		r.Path = "/bkt/d/"
+	}
 	form := zzvf.Choice("range_form", 7)
 	hdr := ""
 	switch form {
